@@ -126,6 +126,14 @@ func H_C10_packet() {
 		vCheck(raw[2] == byte(p.Header.Flags>>8) && raw[3] == byte(p.Header.Flags), "packet/wire/flags-big-endian")
 		vCheck(raw[5] == byte(nq) && raw[7] == byte(na) && raw[9] == byte(ns) && raw[11] == byte(nr), "packet/wire/counts")
 	}
+	// a result already returned is not disturbed by a later Marshal of another packet (no storage shared between results)
+	if err == nil {
+		keep := append([]byte{}, raw...)
+		p2 := &NBTNSPacket{Header: NBTNSHeader{TransactionID: vU16("later.id"), Flags: vU16("later.flags"), Questions: 1}}
+		p2.Questions = append(p2.Questions, NBTNSQuestion{Name: &NetBIOSName{Name: "LATER"}, Type: 0x21, Class: 1})
+		_, _ = p2.Marshal()
+		vCheck(vBytesEq(raw, keep), "packet/marshal-result-not-disturbed-by-a-later-marshal")
+	}
 	// the receiver is reused: it already holds an earlier packet (one question, one record per section)
 	var d NBTNSPacket
 	old := &NetBIOSName{Name: "OLD"}
